@@ -219,30 +219,70 @@ func wallClock(c *Ctx, f *ssa.Function, e ir.Effect, path string) {
 		r.OK("A6.wallclock-telemetry", key, pos(c, e.Site), "the wall-clock value flows only into cosmos-sdk/telemetry")
 		return
 	}
-	// refuted by ValidateBasic: f must be a MsgServer method and the site guarded by a predicate on a message field
-	if w.IsRoot(f) && len(f.Params) >= 3 {
-		mt := msgTypeOf(f)
-		var vb *ssa.Function
-		for _, g := range w.Roots["MSGIFACE:ValidateBasic"] {
-			if ir.ModuleOf(g) == ir.ModuleOf(f) && g.Signature.Recv() != nil && typeName(g.Signature.Recv().Type()) == mt {
-				vb = g
+	// refuted by ValidateBasic: every consensus root reaching the read is a MsgServer method, and on each route the
+	// read itself — or, failing that, every place its value ends up in — is guarded by a predicate on a message
+	// field that the message's own ValidateBasic rejects. Routes are followed on the flat view, so the read may sit
+	// in a helper (`effectiveSubmitTime(msg)`) or be evaluated eagerly and chosen later (`orNow(msg.T, time.Now())`).
+	var handlers []*ssa.Function
+	onlyMsg := true
+	for _, kind := range consensusKinds {
+		for _, root := range w.Roots[kind] {
+			if _, reach := w.Reachable([]*ssa.Function{root})[f]; !reach {
+				continue
+			}
+			if kind == "MSG" && len(root.Params) >= 3 {
+				handlers = append(handlers, root)
+			} else {
+				onlyMsg = false
 			}
 		}
-		var guardField, guardOp, guardConst string
-		guarded := w.Guarded(f, e.Site, func(p ir.Pred) bool {
-			op, x, y, ok := p.Cmp()
-			if !ok {
-				return false
-			}
-			for _, pr := range [][2]*ir.Expr{{x, y}, {y, x}} {
-				if pr[0].Op == "field" && len(pr[0].Args) == 1 && pr[0].Args[0].Op == "param" && pr[1].Op == "const" && op == "==" {
-					guardField, guardOp, guardConst = pr[0].Name, op, pr[1].Name
-					return true
+	}
+	if ok && onlyMsg && len(handlers) > 0 {
+		allRefuted := true
+		desc := ""
+		for _, h := range handlers {
+			mt := msgTypeOf(h)
+			var vb *ssa.Function
+			for _, g := range w.Roots["MSGIFACE:ValidateBasic"] {
+				if ir.ModuleOf(g) == ir.ModuleOf(h) && g.Signature.Recv() != nil && typeName(g.Signature.Recv().Type()) == mt {
+					vb = g
 				}
 			}
-			return false
-		}, 0)
-		if guarded && vb != nil {
+			var guardField, guardOp, guardConst string
+			m := func(p ir.Pred) bool {
+				op, x, y, ok := p.Cmp()
+				if !ok {
+					return false
+				}
+				for _, pr := range [][2]*ir.Expr{{x, y}, {y, x}} {
+					if pr[0].Op == "field" && len(pr[0].Args) == 1 && pr[0].Args[0].Op == "param" && pr[1].Op == "const" && op == "==" {
+						guardField, guardOp, guardConst = pr[0].Name, op, pr[1].Name
+						return true
+					}
+				}
+				return false
+			}
+			guarded := true
+			nocc := 0
+			for _, up := range w.OriginsUpTo(f, &ir.Expr{Op: "const", Name: "0"}, h, 8) {
+				nocc++
+				if chainGuarded(c, h, up.Chain, e.Site, m, 0) {
+					continue
+				}
+				ends := clockValueEnds(c, call, up.Chain, 0)
+				if len(ends) == 0 {
+					guarded = false
+				}
+				for _, end := range ends {
+					if !chainGuarded(c, h, end.chain, end.in, m, 0) {
+						guarded = false
+					}
+				}
+			}
+			if !guarded || nocc == 0 || vb == nil {
+				allRefuted = false
+				break
+			}
 			refuted := hasRejectingCmp(c, vb, func(op string, x, y *ir.Expr) bool {
 				for _, pr := range [][2]*ir.Expr{{x, y}, {y, x}} {
 					if op == guardOp && pr[0].Op == "field" && pr[0].Name == guardField && len(pr[0].Args) == 1 && pr[0].Args[0].Op == "param" && pr[1].Op == "const" && pr[1].Name == guardConst {
@@ -251,9 +291,10 @@ func wallClock(c *Ctx, f *ssa.Function, e ir.Effect, path string) {
 				}
 				return false
 			})
-			r.Require(refuted, "A6.wallclock-refuted", key, pos(c, e.Site),
-				fmt.Sprintf("the wall-clock read happens only when msg.%s %s %s, and %s.ValidateBasic rejects exactly that case (so no valid transaction reaches it)", guardField, guardOp, guardConst, mt),
-				"ValidateBasic has no rejecting comparison msg."+guardField+" "+guardOp+" "+guardConst)
+			desc = fmt.Sprintf("the wall-clock value is used only when msg.%s %s %s, and %s.ValidateBasic rejects exactly that case (so no valid transaction reaches it)", guardField, guardOp, guardConst, mt)
+			r.Require(refuted, "A6.wallclock-refuted", key, pos(c, e.Site), desc, "ValidateBasic has no rejecting comparison msg."+guardField+" "+guardOp+" "+guardConst)
+		}
+		if allRefuted {
 			return
 		}
 	}
@@ -655,6 +696,28 @@ func blockAPI(c *Ctx, f *ssa.Function, call *ssa.Call, e *ir.Expr, kind, key str
 			}
 			same = pa == pb
 		}
+		// the obligation is identified by what is added to what (the sources of the two denominations), not by the
+		// function the addition happens to stand in: renaming or splitting that function leaves the same obligation
+		known := func(p string) string {
+			var ks []string
+			for _, k := range strings.Split(p, "+") {
+				if k != "?" && k != "" {
+					ks = append(ks, k)
+				}
+			}
+			if len(ks) == 0 {
+				return "?"
+			}
+			return strings.Join(ks, "+")
+		}
+		key = "denoms|" + known(pa) + " <- " + known(pb)
+		if c.denomOrd == nil {
+			c.denomOrd = map[string]int{}
+		}
+		c.denomOrd[key]++
+		if c.denomOrd[key] > 1 {
+			key += fmt.Sprintf("|%d", c.denomOrd[key])
+		}
 		r.Require(same, "A10.denom-provenance", key, pos(c, call), "coins added/subtracted on a block-level path take their denomination from the same source (Coin.Add/Sub panics on a mismatch, halting the chain)",
 			fmt.Sprintf("left operand denom from %s, right operand denom from %s", pa, pb))
 	case kind == "types.NewInt64Coin" || kind == "types.NewCoin":
@@ -719,7 +782,26 @@ func denomProvenance(c *Ctx, e *ir.Expr) string {
 		case x.Op == "param":
 			classes["?"] = true
 		default:
-			classes["?"] = true
+			// a record decoded from an iterator over a section is that section's stored value
+			sec := ""
+			if x.Any(func(z *ir.Expr) bool { return z.Op == "decode" }) {
+				x.Walk(func(z *ir.Expr) bool {
+					if sec == "" && z.Op == "call" && strings.Contains(z.Name, "Iterator") {
+						for _, a := range z.Args {
+							if s := c.W.SectionOfKey(a); s != "" && s != "?" {
+								sec = s
+								break
+							}
+						}
+					}
+					return sec == ""
+				})
+			}
+			if sec != "" {
+				classes["stored:"+sec[strings.LastIndex(sec, ".")+1:]] = true
+			} else {
+				classes["?"] = true
+			}
 		}
 	}
 	visit(e)
@@ -1062,4 +1144,71 @@ func derefUses(v ssa.Value) []ssa.Instruction {
 		return nil
 	}
 	return *v.Referrers()
+}
+
+// clockValueEnds follows a wall-clock value forward through conversions, time.Time accessors and in-scope
+// helpers it is handed to, and returns the instructions where it ends up (a return, a store, a phi edge, any
+// other use), each with the call chain leading to the function it stands in. nil = an end that cannot be judged.
+type valueEnd struct {
+	in    ssa.Instruction
+	chain []ssa.Instruction
+}
+
+func clockValueEnds(c *Ctx, v ssa.Value, chain []ssa.Instruction, depth int) []valueEnd {
+	if depth > 6 || v.Referrers() == nil {
+		return nil
+	}
+	var out []valueEnd
+	for _, u := range *v.Referrers() {
+		switch x := u.(type) {
+		case *ssa.DebugRef:
+			continue
+		case *ssa.Convert, *ssa.ChangeType, *ssa.MakeInterface:
+			sub := clockValueEnds(c, x.(ssa.Value), chain, depth+1)
+			if sub == nil {
+				return nil
+			}
+			out = append(out, sub...)
+		case *ssa.Call:
+			cc := x.Common()
+			if cs := c.W.CalleesOf(x); len(cs) == 1 && len(cs[0].Blocks) > 0 {
+				g := cs[0]
+				args := cc.Args
+				if cc.IsInvoke() {
+					args = append([]ssa.Value{cc.Value}, args...)
+				}
+				for ai, a := range args {
+					if a == v && ai < len(g.Params) {
+						sub := clockValueEnds(c, g.Params[ai], append(append([]ssa.Instruction{}, chain...), x), depth+1)
+						if sub == nil {
+							return nil
+						}
+						out = append(out, sub...)
+					}
+				}
+				continue
+			}
+			if len(cc.Args) > 0 && cc.Args[0] == v && cc.StaticCallee() != nil && ir.FnPkg(cc.StaticCallee()) != nil && ir.FnPkg(cc.StaticCallee()).Path() == "time" {
+				// an accessor of the time value (Unix, UnixNano, UTC ...): the result carries it on
+				sub := clockValueEnds(c, x, chain, depth+1)
+				if sub == nil {
+					return nil
+				}
+				out = append(out, sub...)
+				continue
+			}
+			out = append(out, valueEnd{x, chain})
+		case *ssa.Phi:
+			// the value enters the phi over the edges from the predecessors that supply it: those blocks' ends are the uses
+			for i, ed := range x.Edges {
+				if ed == v {
+					pred := x.Block().Preds[i]
+					out = append(out, valueEnd{pred.Instrs[len(pred.Instrs)-1], chain})
+				}
+			}
+		default:
+			out = append(out, valueEnd{u, chain})
+		}
+	}
+	return out
 }
